@@ -17,6 +17,24 @@
 (* at or above one second (MoveTimer with a delay below the wheel interval *)
 (* is outside the C10 statement and not generated), and checks that the    *)
 (* pinned delay is a member of the window allowed by MemCache.             *)
+(*                                                                         *)
+(* Two reductions keep key spaces larger than the limit enumerable:        *)
+(*  - Order (a sequence listing Keys, or <<>>): keys are interchangeable   *)
+(*    for the cache (opaque map keys), so only histories that use the keys *)
+(*    for the first time in that order are generated (one representative   *)
+(*    of every class of histories equal up to renaming the keys);          *)
+(*  - Idle = FALSE: operations that leave the cache as it is (get / del /  *)
+(*    failing take of a key that is not held; get / take of the most       *)
+(*    recently used key of a cache with a limit) are left out; they are    *)
+(*    covered by the families that set Idle = TRUE.                        *)
+(*  - MustEvict: only histories in which a store pushes an entry out (the  *)
+(*    LRU clause speaks about exactly those); a prefix that cannot reach   *)
+(*    an eviction within MaxOps operations is not extended.                *)
+(* Every step reports the set of keys held after it (`held`), the key      *)
+(* pushed out by a store (`evicted`) and whether the operation changed the *)
+(* recency order while the cache held fewer entries than its limit         *)
+(* (`reord`: "fill" = the cache has never been full, "del" / "age" = the   *)
+(* last entry lost otherwise than by eviction went by Del / for age).      *)
 (***************************************************************************)
 EXTENDS MemCache, SequencesExt, Json
 
@@ -25,11 +43,21 @@ CONSTANTS MaxOps,    \* operations per behaviour
           Pre,       \* tick counts that may precede a later operation
           TailTicks, \* extra ticks after the last drop tick in the final step
           Jit,       \* pinned random numbers (thousandths, 0..999)
-          Kinds      \* subset of {"set","setx","get","del","takeok","takeerr"}
+          Kinds,     \* subset of {"set","setx","get","del","takeok","takeerr"}
+          Order,     \* canonical order of first use of the keys (sequence listing Keys), <<>> = any order
+          Idle,      \* generate operations that leave the cache state (data, due, lru) as it is
+          MustEvict  \* only behaviours in which a store pushes an entry out (goal-directed LRU families)
 
-VARIABLES hist, nops, fin
+VARIABLES hist, nops, fin,
+          seen,      \* keys used so far
+          full,      \* the cache has held Limit entries at some point
+          drop,      \* how the most recent entry lost otherwise than by eviction went: "none", "del", "age"
+          evd        \* an entry has been pushed out by a store
 
-gvars == <<vars, hist, nops, fin>>
+gvars == <<vars, hist, nops, fin, seen, full, drop, evd>>
+
+ASSUME Order = <<>> \/ (Len(Order) = Cardinality(Keys) /\ {Order[i] : i \in 1..Len(Order)} = Keys)
+ASSUME Idle \in BOOLEAN /\ MustEvict \in BOOLEAN /\ (MustEvict => Limit > 0)
 
 Scaled(e, R) == e * (10500 - R)
 DelayOf(e, R) == Max2(1, Scaled(e, R) \div 10000)
@@ -48,22 +76,44 @@ Trail(D, U, t, n) ==
 
 MaxDue(U) == LET ds == {U[k] : k \in Keys} IN CHOOSE m \in ds : \A x \in ds : x <= m
 
-GInit == Init /\ hist = <<>> /\ nops = 0 /\ fin = FALSE
+GInit == Init /\ hist = <<>> /\ nops = 0 /\ fin = FALSE /\ seen = {} /\ full = FALSE /\ drop = "none" /\ evd = FALSE
+
+\* first uses of keys follow Order  (IF forms: TLC would enumerate the disjuncts of an action-level \/ one by one)
+InOrder(k) ==
+  IF Order = <<>> \/ k \in seen THEN TRUE
+  ELSE IF Cardinality(seen) < Len(Order) THEN k = Order[Cardinality(seen) + 1] ELSE FALSE
+
+\* operation o on the cache with data D and recency list L changes its state (data, due, lru)
+Effective(o, D, L) ==
+  IF o.op \in {"set", "setx"} THEN TRUE
+  ELSE IF D[o.k] = 0 THEN o.op = "takeok"
+  ELSE IF o.op = "del" \/ Limit = 0 THEN TRUE
+  ELSE L[1] # o.k
 
 \* the state after the pre-ticks
 D1(n) == AgeData(data, due, T, n)
 U1(n) == AgeData(due, due, T, n)
 L1(n) == AgeLru(lru, due, T, n)
 
+\* the operation on held key k changes the recency order of list L while the cache is below its limit
+Reord(L, k, dr) ==
+  IF Limit > 0 /\ InSeq(k, L) /\ L[1] # k /\ Len(L) < Limit THEN (IF full THEN dr ELSE "fill") ELSE ""
+
 Macro(n, o) ==
   LET t1 == T + n
       v  == nops + 1                \* a fresh value per operation: a stale value is always visible
       tr == Trail(data, due, T, n)
+      dr == IF Aged(due, T, n) # {} THEN "age" ELSE drop
+      ro == Reord(L1(n), o.k, dr)
   IN
   /\ ~fin /\ nops < MaxOps
   /\ n \in (IF nops = 0 THEN Pre0 ELSE Pre)
+  /\ InOrder(o.k)
+  /\ IF Idle THEN TRUE ELSE Effective(o, D1(n), L1(n))
   /\ nops' = nops + 1
   /\ T' = t1
+  /\ seen' = seen \cup {o.k}
+  /\ drop' = IF o.op = "del" /\ D1(n)[o.k] # 0 THEN "del" ELSE dr
   /\ UNCHANGED <<fin, ghost>>
   /\ CASE o.op \in {"set", "setx"} ->
             LET e == IF o.op = "set" THEN Expire ELSE o.e
@@ -72,16 +122,17 @@ Macro(n, o) ==
             /\ due' = StoreDue(U1(n), L1(n), o.k, t1 + d)
             /\ lru' = StoreLru(L1(n), o.k)
             /\ out' = [op |-> o.op, k |-> o.k, v |-> v, e |-> e, R |-> o.R, d |-> d, pre |-> n, trail |-> tr,
-                       size |-> Size(data')]
+                       size |-> Size(data'), held |-> Present(data'), evicted |-> Victim(L1(n), o.k), reord |-> ro]
        [] o.op = "get" ->
             /\ data' = D1(n) /\ due' = U1(n)
             /\ lru' = IF D1(n)[o.k] # 0 THEN Touch(L1(n), o.k) ELSE L1(n)
             /\ out' = [op |-> "get", k |-> o.k, hit |-> (D1(n)[o.k] # 0), v |-> D1(n)[o.k], pre |-> n, trail |-> tr,
-                       size |-> Size(data')]
+                       size |-> Size(data'), held |-> Present(data'), evicted |-> {}, reord |-> ro]
        [] o.op = "del" ->
             /\ data' = RemoveData(D1(n), o.k) /\ due' = RemoveData(U1(n), o.k)
             /\ lru' = RemoveLru(L1(n), o.k)
-            /\ out' = [op |-> "del", k |-> o.k, pre |-> n, trail |-> tr, size |-> Size(data')]
+            /\ out' = [op |-> "del", k |-> o.k, pre |-> n, trail |-> tr, size |-> Size(data'), held |-> Present(data'),
+                       evicted |-> {}, reord |-> ""]
        [] o.op \in {"takeok", "takeerr"} ->
             LET fok == (o.op = "takeok")
                 fv == 100 + v
@@ -92,7 +143,12 @@ Macro(n, o) ==
             /\ lru' = IF hit THEN Touch(L1(n), o.k) ELSE IF fok THEN StoreLru(L1(n), o.k) ELSE L1(n)
             /\ out' = [op |-> "take", k |-> o.k, fok |-> fok, fv |-> fv, R |-> o.R, d |-> d, pre |-> n, trail |-> tr,
                        hit |-> hit, fetched |-> ~hit, err |-> (~hit /\ ~fok),
-                       v |-> IF hit THEN D1(n)[o.k] ELSE IF fok THEN fv ELSE 0, size |-> Size(data')]
+                       v |-> IF hit THEN D1(n)[o.k] ELSE IF fok THEN fv ELSE 0, size |-> Size(data'),
+                       held |-> Present(data'), evicted |-> IF ~hit /\ fok THEN Victim(L1(n), o.k) ELSE {}, reord |-> ro]
+  /\ full' = (full \/ (Limit > 0 /\ Size(data') = Limit))
+  /\ evd' = (evd \/ out'.evicted # {})
+  \* goal-directed families: an eviction has happened or the operations left can still fill the cache beyond its limit
+  /\ IF MustEvict THEN (IF evd' THEN TRUE ELSE Size(data') + (MaxOps - nops') > Limit) ELSE TRUE
   /\ hist' = Append(hist, out')
 
 Has(kind) == kind \in Kinds
@@ -116,7 +172,7 @@ Finish ==
         /\ out' = [op |-> "finish", probe0 |-> data, pre |-> n, trail |-> Trail(data, due, T, n),
                    size |-> Size(data'), probe |-> data']
   /\ hist' = Append(hist, out')
-  /\ UNCHANGED <<nops, ghost>>
+  /\ UNCHANGED <<nops, ghost, seen, full, drop, evd>>
 
 GNext == (\E n \in Pre0 \cup Pre, o \in Ops : Macro(n, o)) \/ Finish
 
